@@ -177,3 +177,21 @@ def edge_wrapper_adjacency(ctx, oid: str, wf: Func, wname: str):
         if not inside or tests_in_loop:
             ok, why = False, f"`{ast.unparse(a)}` is conditional or outside the loop over the input edges"
     ctx.ob(oid, "R18 SIBLING-AGREEMENT (policy)", wf, f"{wname} builds one successor list per node and appends every input edge", ok, why, node=wf.node)
+
+
+def edge_wrapper_returns_generic(ctx, oid: str, wf: Func, wname: str, generic: str):
+    """Everything an edge-list wrapper returns was computed by the generic routine it wraps: each `return` is the call
+    itself or is dominated by it.  An answer the wrapper works out on its own (a fast path for 'already sorted' input,
+    an early INFEASIBLE by edge count) is a second implementation of the routine's corner cases - self loops, repeated
+    edges - and the first place where they are forgotten."""
+    wcfg = cfg_of(wf.node)
+    dele = [wcfg.stmt_node_containing(n) for n in own_nodes(wf.node) if isinstance(n, ast.Call) and isinstance(n.func, ast.Name) and n.func.id == generic]
+    n_ret = 0
+    for n in own_nodes(wf.node):
+        if isinstance(n, ast.Return):
+            n_ret += 1
+            rn = wcfg.node_of(n)
+            ok = any(g_.id == rn.id or wcfg.dominates(g_, rn) for g_ in dele)
+            ctx.ob(oid, "R14 GATE", wf, f"{wname} returns nothing {generic} did not compute", ok, f"`{ast.unparse(n)[:70]}` is reached without calling {generic}: the wrapper answers from the shape of the edge list (a self loop is a cycle although it does not point backwards; a repeated edge counts twice towards an edge bound)", node=n)
+    ctx.floor(f"returns of {wname}", n_ret, 1)
+
